@@ -208,6 +208,9 @@ pub enum Scn {
     OwnedMixed,
     OwnedCloneRead,
     OwnedReaderVsCloneDrop,
+    /// two readers fill the cache concurrently, then the (again exclusive) owner mutates the same
+    /// node through &mut and drops it: the cache filled under &self is consumed exactly once
+    OwnedReadThenMutate,
 }
 pub const SCENARIOS: &[Scn] = &[
     Scn::LazyStr2,
@@ -218,6 +221,7 @@ pub const SCENARIOS: &[Scn] = &[
     Scn::OwnedMixed,
     Scn::OwnedCloneRead,
     Scn::OwnedReaderVsCloneDrop,
+    Scn::OwnedReadThenMutate,
 ];
 
 const ESC: &str = "\"a\\n\\u00e9\\\"z\"";
@@ -368,6 +372,34 @@ fn body(scn: Scn) {
             a.join().unwrap();
             b.join().unwrap();
             subject(move || drop(v));
+        }
+        Scn::OwnedReadThenMutate => {
+            let v = Arc::new(subject(owned_raw));
+            let hs: Vec<_> = (0..2)
+                .map(|k| {
+                    let v = v.clone();
+                    spawn(Box::new(move || {
+                        let ok = subject(|| if k == 0 { v.get(0usize).is_some() } else { v.as_array().map(|a| a.len()) == Some(3) });
+                        assert!(ok, "read is wrong");
+                        subject(move || drop(v));
+                    }))
+                })
+                .collect();
+            for h in hs {
+                h.join().unwrap();
+            }
+            use sonic_rs::JsonValueMutTrait;
+            let mut own = Arc::try_unwrap(v).ok().expect("all readers are gone");
+            let ok = subject(|| {
+                let a = own.get_mut(1usize).is_some();
+                let b = own.as_array_mut().map(|a| a.len()) == Some(3);
+                let c = own.pointer_mut([sonic_rs::PointerNode::Index(2), sonic_rs::PointerNode::Key("k".into())].iter()).is_some();
+                a && b && c
+            });
+            assert!(ok, "mutable access after the reads is wrong");
+            let s = subject(|| sonic_rs::to_string(&own).unwrap());
+            assert!(s.contains("true") && s.contains("x\\ty"), "value after read-then-mutate serializes as {s}");
+            subject(move || drop(own));
         }
         Scn::OwnedReaderVsCloneDrop => {
             let v = Arc::new(subject(owned_raw));
